@@ -10,6 +10,7 @@ package main
 
 import (
 	"fmt"
+	"go/token"
 	"go/types"
 	"strings"
 
@@ -477,6 +478,30 @@ func typedNilRule(c *Ctx, pr *PropertyRun, prop string) {
 				return true
 			case *ssa.Const:
 				return !x.IsNil()
+			case *ssa.UnOp:
+				// a result spilled into a cell (go/ssa does that for functions
+				// with a defer): what is loaded is what was stored
+				al, isAl := x.X.(*ssa.Alloc)
+				if x.Op != token.MUL || !isAl || depth > 3 {
+					return false
+				}
+				stores := 0
+				for _, ref := range refsOf(al) {
+					switch st := ref.(type) {
+					case *ssa.Store:
+						if st.Addr != ssa.Value(al) {
+							return false
+						}
+						stores++
+						if !nonNilValRec(st.Val, depth+1) {
+							return false
+						}
+					case *ssa.UnOp:
+					default:
+						return false // its address escapes
+					}
+				}
+				return stores > 0
 			case *ssa.Phi:
 				// a variable assigned on some paths only
 				if depth > 3 {
@@ -518,6 +543,12 @@ func typedNilRule(c *Ctx, pr *PropertyRun, prop string) {
 		}
 		n := 0
 		for _, b := range fn.Blocks {
+			if b == fn.Recover && !callsRecover(fn) {
+				// go/ssa's landing block for a recovered panic (every
+				// function with a defer has one): it returns zero values,
+				// and is reached only if a deferred call recovers
+				continue
+			}
 			ret, ok := b.Instrs[len(b.Instrs)-1].(*ssa.Return)
 			if !ok || idx >= len(ret.Results) {
 				continue
@@ -698,4 +729,18 @@ func locationAlwaysRule(c *Ctx, pr *PropertyRun, prop string) {
 		})
 	}
 	r.RequireRole("location-emission")
+}
+
+// callsRecover: fn or one of its closures calls the builtin recover (only then
+// can control reach fn.Recover).
+func callsRecover(fn *ssa.Function) bool {
+	found := false
+	for _, f := range withClosures(fn) {
+		eachCall(f, func(site ssa.CallInstruction) {
+			if b, ok := site.Common().Value.(*ssa.Builtin); ok && b.Name() == "recover" {
+				found = true
+			}
+		})
+	}
+	return found
 }
